@@ -319,6 +319,8 @@ func judgeDelay(lim *sigLimiter, c *kit.Check, part string, accepted, otherwiseG
 	witness["height"], witness["processed_height"], witness["block_delay"] = h, hp, db
 	witness["accepted"] = accepted
 	cls := fmt.Sprintf("%s|t%s|h%s|acc=%v", part, tc, hc, accepted)
+	c.Inc(part + "_point_time" + tc)
+	c.Inc(part + "_point_height" + hc)
 	switch {
 	case accepted && (!timeOK || !heightOK):
 		sig := fmt.Sprintf("C19|accepted-before-delay|%s|time%s,height%s", part, tc, hc)
